@@ -14,8 +14,11 @@ ArgsOf(kd) == CASE kd = "none"  -> {"-"}
                 [] kd = "neg"   -> {"first", "last", "all"}          \* which item(s) are made negative
                 [] kd = "limit" -> {"0", "-1", "-0.5", "np64:0", "np64:-1.5", "npi:0"}
                 [] kd = "bound" -> {"0", "-1", "-5", "1.5", "2.5", "np64:1.5", "np64:2.5", "np32:2.5", "np64:0.5", "npi:0", "npi:-2", "frac:3/2", "frac:5/2"}
-Init == /\ \E n \in 1..MaxN : vals \in [1..n -> 0..MaxV]
+\* an EMPTY item collection is part of the universe for the invalid bin count / time limit / cardinality bound (the request is malformed whatever the
+\* items are); not for the all-valid control and not for "a negative item" (there is no item to negate)
+Init == /\ \E n \in 0..MaxN : vals \in [1..n -> 0..MaxV]
         /\ kind \in {"none", "k", "neg", "limit", "bound"}
+        /\ (Len(vals) = 0 => kind \in {"k", "limit", "bound"})
         /\ arg \in ArgsOf(kind)
         /\ sent = FALSE
 Next == /\ ~sent /\ sent' = TRUE
